@@ -314,7 +314,86 @@ def rule_gain(repo, tier):
     return res
 
 
+def rule_best(repo, tier):
+    res = RuleResult('C14.BEST', 'MPC keeps the best-so-far iterate: the record is replaced only by an iterate whose cost is strictly lower (or when '
+                     'empty), all three fields are replaced together from the same LQR call, and the final solve starts from the best input '
+                     'sequence', floor=3)
+    f = repo.func('pypose.module.mpc', 'MPC.forward')
+    loops = [n for n in ast.walk(f.node) if isinstance(n, ast.While)]
+    if not loops:
+        raise AnalysisError('C14.BEST: MPC.forward has no iteration loop')
+    loop = loops[0]
+    # the LQR call of the iteration and the names it binds
+    call_targets = None
+    for st in loop.body:
+        if isinstance(st, ast.Assign) and isinstance(st.value, ast.Call) and dotted(st.value.func) == 'self.lqr' and isinstance(st.targets[0], ast.Tuple):
+            call_targets = [t.id for t in st.targets[0].elts if isinstance(t, ast.Name)]
+    # the record is the dict whose 'u' entry seeds the final solve (role, not name)
+    rec = None
+    final_calls = [c for st in f.node.body if st is not loop and not any(x is loop for x in ast.walk(st))
+                   for c in paths.calls_in(st) if dotted(c.func) == 'self.lqr']
+    class _R:      # the final solve, wherever its value is bound before being returned
+        pass
+    for c_ in final_calls:
+        r = _R()
+        r.value = c_
+        if True:
+            for a in list(r.value.args) + [k.value for k in r.value.keywords]:
+                if isinstance(a, ast.Subscript) and isinstance(a.value, ast.Name) and isinstance(a.slice, ast.Constant) and a.slice.value == 'u':
+                    rec = a.value.id
+    if rec is None:
+        rec = 'best'
+    upd = [n for n in ast.walk(loop) if isinstance(n, ast.If) and any(isinstance(s_, ast.Assign) and any(dotted(t) == rec for t in s_.targets) for s_ in n.body)]
+    ok_cond = ok_fields = False
+    if upd and call_targets and len(call_targets) == 3:
+        t = upd[0].test
+        conds = t.values if isinstance(t, ast.BoolOp) and isinstance(t.op, ast.Or) else [t]
+        for c in conds:
+            if isinstance(c, ast.Compare) and len(c.ops) == 1 and isinstance(c.ops[0], ast.Lt) and dotted(c.left) == call_targets[2] and \
+                    src(c.comparators[0]).replace('"', "'") == "%s['cost']" % rec:
+                ok_cond = True
+            if isinstance(c, ast.Compare) and len(c.ops) == 1 and isinstance(c.ops[0], ast.Gt) and dotted(c.comparators[0]) == call_targets[2] and \
+                    src(c.left).replace('"', "'") == "%s['cost']" % rec:
+                ok_cond = True
+        for s_ in upd[0].body:
+            if isinstance(s_, ast.Assign) and isinstance(s_.value, ast.Dict):
+                d = {k.value: dotted(v) for k, v in zip(s_.value.keys, s_.value.values) if isinstance(k, ast.Constant)}
+                ok_fields = d == {'x': call_targets[0], 'u': call_targets[1], 'cost': call_targets[2]}
+    res.inst({'function': f.fq, 'replace_only_if_strictly_lower': ok_cond}, 'cond')
+    res.inst({'function': f.fq, 'fields_from_same_call': ok_fields}, 'fields')
+    if not ok_cond:
+        res.add(Finding('C14.BEST', f, 'the best-so-far record is not replaced exactly when the new cost is strictly lower than the recorded one', construct='best cond'))
+    if not ok_fields:
+        res.add(Finding('C14.BEST', f, 'the best-so-far record does not take x, u and cost together from the LQR call of the same iteration', construct='best fields'))
+    ok_ret = False
+    for v in final_calls:
+        if True:
+            kw = {k.arg: src(k.value).replace('"', "'") for k in v.keywords}
+            pos = [src(a).replace('"', "'") for a in v.args]
+            ok_ret = kw.get('u_traj') == "%s['u']" % rec or (len(pos) >= 3 and pos[2] == "%s['u']" % rec)
+    res.inst({'function': f.fq, 'final_solve_from_best_u': ok_ret}, 'ret')
+    if not ok_ret:
+        res.add(Finding('C14.BEST', f, 'the final LQR solve does not start from the best input sequence found', construct='best return'))
+    return res
+
+
+def rule_dyn(repo):
+    """the transition the roll-outs rely on: the LTI/LTV equations (same analysis as C15.EQ, reported for C14: feasibility clause)"""
+    from .c15 import rule_eq
+    r = rule_eq(repo)
+    r.rule = 'C14.DYN'
+    r.text = 'the system the roll-out calls obeys x\' = A x + B u + c1, y = C x + D u + c2 with each constant guarded by its own None test ' \
+             '(feasibility of the returned trajectory is stated against these equations)'
+    for fd in r.findings:
+        fd.rule = 'C14.DYN'
+    return r
+
+
 def rules(repo, tier):
     from ..stale import rule_stale
-    return [rule_clk(repo, tier), rule_feas_cost(repo, tier), rule_gain(repo, tier),
+    from ..effects import rule_pure
+    return [rule_pure(repo, 'C14.PURE', 'LQR / MPC do not write in place into x_init, the nominal input trajectory or the cost tensors they are given',
+                      [(LQR, 'LQR.forward'), (LQR, 'LQR.lqr_backward'), (LQR, 'LQR.lqr_forward'), ('pypose.module.mpc', 'MPC.forward'),
+                       ('pypose.module.dynamics', 'runsys'), ('pypose.module.dynamics', 'toBTN')]),
+            rule_clk(repo, tier), rule_feas_cost(repo, tier), rule_gain(repo, tier), rule_best(repo, tier), rule_dyn(repo),
             rule_stale(repo, 'C14.STALE', [(LQR, 'LQR.lqr_backward'), (LQR, 'LQR.lqr_forward'), ('pypose.module.mpc', 'MPC.forward'), ('pypose.module.dynamics', 'runsys')])]
